@@ -134,7 +134,7 @@ def _pair(args):
 def key_part(ctx):
     wd = workdir("modcache")
     try:
-        opts = list(OPTIONS)
+        opts = [o for o in OPTIONS if "another order" not in o]     # (a configuration that must not matter is no option of the key model)
         open(os.path.join(wd, "MCKey.tla"), "w").write(
             "---- MODULE MCKey ----\nEXTENDS ModuleCache\nMCOptions == %s\nMCHashed == %s\nMCAffecting == %s\nMCWriters == {1}\n====\n" % (
                 lit(TLASet(opts)), lit(TLASet(opts)), lit(TLASet(opts))))
